@@ -358,8 +358,8 @@ class C06(CrossCfg):
 class C10(CrossCfg):
     lean = ["Props.C10clean", "Audit.C10clean", "Props.C10", "Audit.C10"]
     audit = ["C10clean", "C10"]
-    tie = ["SqlExpiry", "SqlFull_rkey"]
-    facts = [r"^sql\..*\.expiry$", r"^sql\.rkey\.sql(Delete|Expire|Persist)", r"^consts\.bg_"]
+    tie = ["SqlExpiry", "SqlFull_rkey", "Schema"]
+    facts = [r"^sql\..*\.expiry$", r"^sql\.rkey\.sql(Delete|Expire|Persist)", r"^consts\.bg_", r"^schema\.view_"]
     listed = ALL_API_FINDINGS
 
     def streams(self, tier, seed, search):
@@ -368,6 +368,9 @@ class C10(CrossCfg):
         for i in range(n):
             mode = ["db", "tx", "db", "mix"][i % 4]
             out.append(api(seed * 1000 + 200 + i, t, l, ALLFAM + ",expire,expire,expire", mode, 0.02))
+            if i % 2 == 0:
+                # the documented SQL views hide expired keys with SQLite's clock (verdict W)
+                out[-1]["args"] = out[-1]["args"] + ["-views"]
         return out
 
     def counts(self, op, v):
@@ -378,19 +381,33 @@ class C10(CrossCfg):
             r = judge_spec(v, self.listed)
             if r:
                 return r
+        if v.get("W") == "0":
+            return ("violation", "an SQL view shows a key or element the API does not (or hides one it does): W=0")
         if v.get("M") == "0" and "etime" in v["D"]:
             return ("corr", "model and implementation disagree on stored expiry times")
         return None
 
 
 class C11(CrossCfg):
-    lean = ["Props.C11", "Audit.C11"]
-    audit = ["C11"]
+    lean = ["Props.C11", "Audit.C11", "Props.C11views", "Audit.C11views"]
+    audit = ["C11", "C11views"]
     tie = ["SqlMeta", "Schema"]
     facts = [r"^sql\..*\.meta$", r"^schema\."]
     listed = set()
 
+    def streams(self, tier, seed, search):
+        # every line also carries `select * from v...` of the six documented views (verdict W)
+        out = CrossCfg.streams(self, tier, seed, search)
+        for sp in out:
+            sp["args"] = sp["args"] + ["-views"]
+        return out
+
     def judge(self, op, v, mode):
+        if v.get("W") == "0":
+            return ("violation", "the documented SQL views do not show exactly the live keys and elements (W=0: select * from v... differs from the model of the views, "
+                    "which Props.C11views proves equal to what the API shows)")
+        if v.get("W") == "E":
+            return ("corr", "the view dump could not be parsed")
         if "R" in v:      # a refused call with an invalid value type (FAULT kind=invalid)
             if v.get("I") == "0":
                 return ("violation", "the stored structure is inconsistent after a call refused for its value type")
